@@ -37,6 +37,7 @@ def patched(np_modules=None, stub_ascii=True, extra=None, np_module=None):
     extra: {"module.path": {"name": obj}}  or  {("module.path", "Class"): {"attr": obj}}
     """
     saved = []
+    _ACTIVE.append(saved)
     mods = _NP_MODULES if np_modules is None else np_modules
     try:
         for mn in mods:
@@ -60,6 +61,7 @@ def patched(np_modules=None, stub_ascii=True, extra=None, np_module=None):
                 setattr(obj, k, v)
         yield
     finally:
+        _ACTIVE.remove(saved)
         for obj, k, v in reversed(saved):
             if v is _MISSING:
                 try:
@@ -71,6 +73,34 @@ def patched(np_modules=None, stub_ascii=True, extra=None, np_module=None):
 
 
 _MISSING = object()
+_ACTIVE: list = []
+
+
+@contextlib.contextmanager
+def unpatched():
+    """temporarily restore every binding that an enclosing `patched()` replaced (real-code replays inside a symbolic job)"""
+    cur_vals = []
+    try:
+        for saved in reversed(_ACTIVE):
+            for obj, k, orig in reversed(saved):
+                cur_vals.append((obj, k, getattr(obj, k, _MISSING)))
+                if orig is _MISSING:
+                    try:
+                        delattr(obj, k)
+                    except AttributeError:
+                        pass
+                else:
+                    setattr(obj, k, orig)
+        yield
+    finally:
+        for obj, k, v in reversed(cur_vals):
+            if v is _MISSING:
+                try:
+                    delattr(obj, k)
+                except AttributeError:
+                    pass
+            else:
+                setattr(obj, k, v)
 
 
 def stubs_description(np_modules=None, stub_ascii=True, extra=None):
